@@ -66,7 +66,7 @@ func (*prop) Cases(seed int64, tier string) []core.Case {
 }
 
 var modes = []string{"render", "nothing", "skip", "ignore-nothing", "ignore-something", "alias-only", "alias-ignore-nothing", "render", "defer-only", "ignore-then-skip", "skip-then-ignore", "ignore-then-nil"}
-var bases = []string{"zz_generated", "zz", "gen.out"}
+var bases = []string{"zz_generated", "zz", "gen.out", "zz_Generated", "GEN"}
 
 const mod = "example.com/c07"
 
@@ -88,7 +88,7 @@ type config struct {
 func genConfig(r *rand.Rand) config {
 	cfg := config{Base: bases[r.Intn(len(bases))], All: r.Intn(3) != 0, Root: r.Intn(2) == 0, Prev: map[string]bool{}, Stale: r.Intn(3) != 0, Sum: []string{"none", "garbage", "empty"}[r.Intn(3)]}
 	pk := pkgs(cfg.Root)
-	for gi, gn := range []string{"g1", "g2", "g3"} {
+	for gi, gn := range []string{"g1", "gTwo", "g3"} {
 		gs := specgen.GenSpec{Name: gn, Alias: gi == 0, Pkg: map[string]specgen.Behav{}, Def: specgen.Behav{Mode: "render", Salt: "s"}}
 		for _, p := range pk {
 			m := modes[r.Intn(len(modes))]
@@ -111,7 +111,7 @@ func genConfig(r *rand.Rand) config {
 }
 
 func pkgs(root bool) []layout.Pkg {
-	tags := []string{"+gengo:g1", "+gengo:g2", "+gengo:g3", "+gengo:gone"}
+	tags := []string{"+gengo:g1", "+gengo:gTwo", "+gengo:g3", "+gengo:gone"}
 	ps := []layout.Pkg{
 		{Dir: "a", Name: "a", Imports: []string{mod + "/b"}, Types: []string{"A1", "A2"}, Aliases: []string{"AA"}, Tags: tags},
 		{Dir: "b", Name: "b", Imports: []string{mod + "/b/nested"}, Types: []string{"B1"}, Tags: tags},
@@ -152,16 +152,16 @@ func build(m *fixture.Module, cfg config) []layout.Pkg {
 		m.MustWrite(filepath.Join(d, cfg.Base+"_test.go"), "package "+p.Name+"\n")
 		m.MustWrite(filepath.Join(d, cfg.Base+".notes.txt"), "notes\n")
 		if cfg.Stale {
-			m.MustWrite(filepath.Join(d, cfg.Base+".g2.go.tmp"), strings.Repeat("left-over of an interrupted run\n", 300))
+			m.MustWrite(filepath.Join(d, cfg.Base+".gTwo.go.tmp"), strings.Repeat("left-over of an interrupted run\n", 300))
 		}
 		m.MustWrite(filepath.Join(d, "data.json"), "{}\n")
 		// user files named like temp / backup / lock files of an output, OUTSIDE the <base>. namespace
-		for _, gn := range []string{"g1", "g2", "g3"} {
+		for _, gn := range []string{"g1", "gTwo", "g3"} {
 			for _, pat := range []string{".%s.%s.go.tmp", ".%s.%s.go", "_%s.%s.go.tmp", "#%s.%s.go#", ".#%s.%s.go", "~%s.%s.go~", "tmp-%s.%s.go.bak"} {
 				m.MustWrite(filepath.Join(d, fmt.Sprintf(pat, cfg.Base, gn)), "user data, not gengo's\n")
 			}
 		}
-		for _, gn := range []string{"g1", "g2", "g3"} {
+		for _, gn := range []string{"g1", "gTwo", "g3"} {
 			if cfg.Prev[p.Dir+"|"+gn] {
 				m.MustWrite(filepath.Join(d, cfg.Base+"."+gn+".go"), prevContent(p.Name, gn))
 			}
@@ -175,10 +175,10 @@ func build(m *fixture.Module, cfg config) []layout.Pkg {
 		// a nested module inside the tree and a look-alike sibling module whose path merely starts with the main
 		// module's path; both are imported by package a (through replace directives) and must never be touched
 		m.MustWrite("tools/go.mod", "module "+mod+"/tools\n\ngo 1.24\n")
-		m.MustWrite("tools/tools.go", "// +gengo:g1\n// +gengo:g2\n// +gengo:g3\npackage tools\n\ntype Anchor struct{ N int }\n\ntype Tool struct{}\n")
+		m.MustWrite("tools/tools.go", "// +gengo:g1\n// +gengo:gTwo\n// +gengo:g3\npackage tools\n\ntype Anchor struct{ N int }\n\ntype Tool struct{}\n")
 		m.MustWrite("tools/"+cfg.Base+".g1.go", "package tools\n\n// output of another module's own run\n")
 		m.MustWrite("_sibling/contrib/go.mod", "module "+mod+"-contrib\n\ngo 1.24\n")
-		m.MustWrite("_sibling/contrib/contrib.go", "// +gengo:g1\n// +gengo:g2\n// +gengo:g3\npackage contrib\n\ntype Anchor struct{ N int }\n\ntype Extra struct{}\n")
+		m.MustWrite("_sibling/contrib/contrib.go", "// +gengo:g1\n// +gengo:gTwo\n// +gengo:g3\npackage contrib\n\ntype Anchor struct{ N int }\n\ntype Extra struct{}\n")
 	}
 	m.MustWrite("README.md", "# scratch\n")
 	m.MustWrite("a/testdata/x/x.go", "package x\n\ntype X struct{}\n")
@@ -567,7 +567,7 @@ func (p *prop) Run(c core.Case, w *core.Worker) core.Result {
 				}
 			}
 			for _, pk := range pkgs(cfg.Root) {
-				for _, gn := range []string{"g1", "g2", "g3"} {
+				for _, gn := range []string{"g1", "gTwo", "g3"} {
 					cfg.Prev[pk.Dir+"|"+gn] = true
 				}
 			}
